@@ -138,6 +138,10 @@ def run(ctx):
             if d.get('dims') != [str(R), str(C), str(T), str(R * C * T)] or d.get('idx') != want or d.get('zeroed') != ['1']:
                 ctx.violation('layout-after-resize', 'after resize(%d,%d,%d) of a tensor that held %sx%sx%s the layout is not a*R*C + j*R + i on the new dimensions (or the data is not zeroed)' % (R, C, T, t[2], t[3], t[4]),
                               {'case': line, 'impl': d})
+            elif ('@diag_resized' in d and d['@diag_resized'] != [str(R), '1', str(T), str(R * T)]) or ('@diag_resized_from_empty' in d and d['@diag_resized_from_empty'] != [str(R), '1', str(T), str(R * T)]):
+                ctx.violation('layout-after-resize', 'a diagonal tensor resized to (%d groups, %d layers) reports the shape %s / %s, not %d x 1 x %d' % (R, T, d.get('@diag_resized'), d.get('@diag_resized_from_empty'), R, T), {'case': line, 'impl': d})
+            elif '@sym_resized' in d and d['@sym_resized'] != [str(R), str(R), str(T), str(R * R * T)]:
+                ctx.violation('layout-after-resize', 'a symmetric tensor resized to (%d groups, %d layers) reports the shape %s, not %d x %d x %d' % (R, T, d.get('@sym_resized'), R, R, T), {'case': line, 'impl': d})
     # ---- the affinity vector exchanged with callers (main.hpp): IN: a user-supplied NON-symmetric vector must reach the solver at the
     #      documented positions (start state = vector + noise, compared with the model at `start:w`); OUT: the vector handed back is the
     #      adopted realization's tensor in the same flat order (implementation's returned vector vs its own final state at the hook)
